@@ -11,6 +11,9 @@ pub enum Seg {
     Hole(u64),
     /// `len` bytes of explicitly written zeros (allocated, reads as zero)
     Zero(u64),
+    /// a range of `.0` bytes preallocated with fallocate() (unwritten extent) whose first `.1` bytes
+    /// are then written with data (seed `.2`); the rest reads as zero
+    PreData(u64, u64, u8),
 }
 
 #[derive(Clone, Debug, Serialize, Deserialize, PartialEq, Default)]
@@ -26,7 +29,7 @@ impl Content {
         self.segs
             .iter()
             .map(|s| match s {
-                Seg::Data(l, _) | Seg::Hole(l) | Seg::Zero(l) => *l,
+                Seg::Data(l, _) | Seg::Hole(l) | Seg::Zero(l) | Seg::PreData(l, _, _) => *l,
             })
             .sum()
     }
@@ -37,7 +40,7 @@ impl Content {
         self.segs.iter().any(|s| matches!(s, Seg::Hole(l) if *l > 0))
     }
     pub fn data_bytes(&self) -> u64 {
-        self.segs.iter().map(|s| if let Seg::Data(l, _) = s { *l } else { 0 }).sum()
+        self.segs.iter().map(|s| match s { Seg::Data(l, _) => *l, Seg::PreData(l, d, _) => std::cmp::min(*d, *l), _ => 0 }).sum()
     }
     /// Materialise the logical bytes (only for small contents)
     pub fn bytes(&self) -> Vec<u8> {
@@ -53,6 +56,14 @@ impl Content {
                 }
                 Seg::Hole(l) | Seg::Zero(l) => {
                     v.extend(std::iter::repeat(0u8).take(*l as usize));
+                    off += l;
+                }
+                Seg::PreData(l, d, seed) => {
+                    let d = &std::cmp::min(*d, *l);
+                    for i in 0..*d {
+                        v.push(pattern(off + i, *seed));
+                    }
+                    v.extend(std::iter::repeat(0u8).take((*l - *d) as usize));
                     off += l;
                 }
             }
